@@ -129,7 +129,7 @@ func lexClasses(sandbox bool, fix string) lex {
 		"", "/p", "p", "*", ".x", "!", "-1", "0", "1", "9223372036854775808", "1KB", "10s",
 		"none", "off", "on", "not", "http://127.0.0.1:1", "unix:/x", "srv://", "{x", "x}", "{path}", "{>X-H}",
 		p("ok.txt"), p("garbage.bin"), p("d"), p("missing"), "ok.txt", "garbage.bin", "d", "missing",
-		p("c.crt"), p("c.key"), p("certs"), "ht.txt", "tpl.html", "404", "301", "127.0.0.1:1", "a b",
+		p("c.crt"), p("c.key"), p("certs"), p("certs2"), "127.0.0.2:65530-65535", "127.0.0.2:7-9", "127.0.0.2:9-7", "ht.txt", "tpl.html", "404", "301", "127.0.0.1:1", "a b",
 		// quoted tokens that are non-empty but contain no shell word / look like a
 		// comment / are an unbalanced quote once a directive splits them again
 		" ", "#c", "'", "\t ",
